@@ -65,7 +65,7 @@ in the nops that `write_nop` computed for it -/
 structure EntryShape (m : Mode) (e : Endian) (f : Format) (asz : Nat) (bs : Bytes) : Prop where
   split : ∃ lf body n, bs = lf ++ body ++ List.replicate n 0 ∧
     Ints.writeInitialLength e f (body.length + n) = .ok lf ∧
-    nopCount m (f.wordSize + body.length) asz = .ok n
+    nopCount m (lenFieldSize f + body.length) asz = .ok n
 
 theorem cieWrite_shape (m : Mode) (e : Endian) (eh : Bool) (c : WCie) (off : Nat) (bs : Bytes)
     (h : cieWrite m e eh c off = .ok bs) : EntryShape m e c.format c.addressSize bs := by
@@ -92,22 +92,17 @@ theorem fdeWrite_shape (m : Mode) (e : Endian) (eh : Bool) (off cieOff : Nat) (c
   cases h
   exact ⟨_, _, _, rfl, hlf, hn⟩
 
-/-- what the padding achieves: `word_size + length` is a multiple of the address size -/
+/-- what the padding achieves: the whole entry — length field plus `length` — is a multiple of
+the address size -/
 theorem shape_aligned {m : Mode} {e : Endian} {f : Format} {asz : Nat} {bs : Bytes}
     (hs : EntryShape m e f asz bs) (ha : asz = 1 ∨ asz = 2 ∨ asz = 4 ∨ asz = 8) (hlen : bs.length < 2 ^ 64) :
-    (f.wordSize + (bs.length - lenFieldSize f)) % asz = 0 ∧ lenFieldSize f ≤ bs.length := by
+    bs.length % asz = 0 ∧ lenFieldSize f ≤ bs.length := by
   obtain ⟨lf, body, n, rfl, hlf, hn⟩ := hs.split
   have hl := writeInitialLength_length _ _ _ _ hlf
   simp only [List.length_append, List.length_replicate] at hlen ⊢
-  have hw : 0 < f.wordSize := by cases f <;> simp [Format.wordSize]
-  have hw' : f.wordSize ≤ lenFieldSize f := by cases f <;> simp [Format.wordSize, lenFieldSize]
-  have := nopCount_aligned m (f.wordSize + body.length) asz n ⟨by omega, by omega⟩ ha hn
-  rw [hl]
-  refine ⟨?_, by omega⟩
-  have : lenFieldSize f + body.length + n - lenFieldSize f = body.length + n := by omega
-  rw [this, ← Nat.add_assoc]
-  exact (nopCount_aligned m (f.wordSize + body.length) asz n ⟨by omega, by omega⟩ ha hn).1
-
+  have hw : 0 < lenFieldSize f := by cases f <;> simp [lenFieldSize]
+  rw [hl] at hlen ⊢
+  exact ⟨(nopCount_aligned m (lenFieldSize f + body.length) asz n ⟨by omega, by omega⟩ ha hn).1, by omega⟩
 
 /-! ## `add_cie` -/
 
